@@ -23,6 +23,7 @@ type Input struct {
 	Balancer   string      `json:"balancer"` // "range" | "roundrobin" | "rack"
 	Members    []Member    `json:"members"`
 	Partitions []Partition `json:"partitions"`
+	Leader     string      `json:"leader"` // "": call AssignGroups directly; otherwise the member that leads a real group (leader.go)
 }
 
 type Member struct {
@@ -68,6 +69,13 @@ type Line struct {
 	HasSorted bool    `json:"hasSorted"`
 	Sorted    Run     `json:"sorted"`
 	Reps      int     `json:"reps"`
+	// leader path (leader.go); Path is "" for a direct call of AssignGroups
+	Path       string   `json:"path"`
+	Leader     string   `json:"leader"`
+	Elected    string   `json:"elected"`
+	Generation int      `json:"generation"`
+	Err        string   `json:"err"`
+	Asked      []string `json:"asked"`
 }
 
 func balancer(name string) (kafka.GroupBalancer, error) {
@@ -169,7 +177,7 @@ func Execute(in Input, reps int) ([]Line, error) {
 			continue
 		}
 		seen[string(key)] = len(lines)
-		l := Line{N: in.N, Bal: in.Balancer, Out: out, Panic: p, Reps: 1}
+		l := Line{N: in.N, Bal: in.Balancer, Out: out, Panic: p, Reps: 1, Asked: []string{}}
 		l.In.Members, l.In.Parts = in.Members, in.Partitions
 		l.Sorted = Run{Members: []Member{}, Out: []Entry{}}
 		lines = append(lines, l)
